@@ -1,23 +1,34 @@
 (* Model of tower-resilience-coalesce (src/service.rs: InFlight::{try_join, complete, cancel},
-   CoalesceService::call, CoalesceFuture::{poll, drop}) at poll granularity, together with the
-   one-message tokio broadcast channel each leader owns.  Executable; no proofs here.
+   CoalesceService::call, LeaderRegistration, CoalesceFuture::{poll, drop}) at poll granularity,
+   together with the one-message tokio broadcast channel each leader owns.  Executable; no proofs here.
 
    What the code does:
    * call(req) (synchronously, under the map lock): key = key_extractor(req);
        key in the map  -> subscribe to the sender stored there: CoalesceFuture::Waiting{receiver}
        key not in map  -> insert a fresh broadcast sender under key, evaluate inner.call(req)
-                          (the inner call starts NOW), CoalesceFuture::Leading{future, key: Some}
-   * poll, Leading: polls the inner future; on Ready(res): key.take(), then
-       InFlight::complete(key, clone of res) = remove the map entry of that key and send on the
-       sender found there (then that sender is dropped); returns res.  A panic of the inner
-       future unwinds through poll with key still Some: the future is then dropped, see drop.
-   * poll, Waiting: receiver.try_recv(): Ok(res) -> res; Empty -> wake_by_ref() and Pending
-       (busy wait); Closed -> Err(LeaderCancelled); Lagged -> Err(RecvError).
+                          (the inner call starts NOW), CoalesceFuture::Leading{future, key: Some}.
+                          If inner.call(req) panics, no future exists yet; the LeaderRegistration
+                          guard alive around that call runs InFlight::cancel(key) while unwinding.
+   * poll, Leading: polls the inner future; on Ready(res): clone res (for the waiters), THEN
+       key.take() and InFlight::complete(key, clone) = remove the map entry of that key and send on
+       the sender found there (then that sender is dropped); returns res.  A panic of the inner
+       future, or of that Clone, unwinds through poll with key still Some: the future is then
+       dropped, see drop.
+   * poll, Waiting: receiver.try_recv(): Ok(res) -> res (try_recv clones the value held by the
+       channel: that Clone may panic; the panic unwinds through this waiter's poll only);
+       Empty -> wake_by_ref() and Pending (busy wait); Closed -> Err(LeaderCancelled);
+       Lagged -> Err(RecvError).
    * drop, Leading with key still Some: InFlight::cancel(key) = remove the map entry of that key
        (its sender is dropped without a message: the channel closes); then the inner future is
        dropped.  drop of a finished leader or of a waiter: nothing.
    The sender of a leader lives only in the map, so "entry removed" = "channel closed
-   (after the message, if one was sent)". *)
+   (after the message, if one was sent)".
+
+   One generalisation beyond the code: the field `busy` selects how a pending waiter arranges to
+   be polled again.  busy = true is the code (it wakes itself at once and spins).  busy = false is
+   the other discipline the property allows: the waiter's waker is registered with the channel
+   and is woken when the channel receives its message or closes.  run_script (what the
+   correspondence check executes) runs busy = true; the theorems hold for both values. *)
 From TR Require Import Lib.Base.
 
 Inductive outcome := OOk | OErr | OPanic.
@@ -26,7 +37,7 @@ Inductive cst :=
 | Idle                      (* call() not made yet *)
 | Leading (k : nat)         (* CoalesceFuture::Leading, key = Some k, inner call in flight *)
 | Waiting (l : nat)         (* CoalesceFuture::Waiting on the channel created by caller l *)
-| Done
+| Done                      (* no future left to poll: resolved, panicked, or call() itself unwound *)
 | Dropped.
 
 (* the broadcast channel created by leader l *)
@@ -40,7 +51,9 @@ Inductive ev :=
 | Call (i : nat) (k : nat)
 | Poll (i : nat)
 | Drop (i : nat)
-| Complete (i : nat) (o : outcome).
+| Complete (i : nat) (o : outcome)
+| CallPanic (i : nat) (k : nat)   (* call() whose inner.call(), if it is reached, panics *)
+| Arm (i : nat).                  (* the next Clone of a value produced by caller i's inner call panics *)
 
 Record st := mkSt {
   cs : nat -> cst;
@@ -49,8 +62,10 @@ Record st := mkSt {
   inflight : list nat;            (* callers whose inner call exists (made, not finished/dropped) *)
   gate : nat -> option outcome;   (* scripted completion of caller i's inner call *)
   woken : nat -> bool;
-  polled : nat -> bool;           (* caller i's future has been polled (its waker is registered) *)
-  ckey : nat -> option nat        (* ghost: the key caller i's request had at call() *)
+  polled : nat -> bool;           (* caller i's future returned Pending at least once (its waker is known) *)
+  ckey : nat -> option nat;       (* ghost: the key caller i's request had at call() *)
+  bomb : nat -> bool;             (* armed: the next Clone of a value from caller i's inner call panics *)
+  busy : bool                     (* waiter discipline, see above; never changes *)
 }.
 
 Definition upd {A} (f : nat -> A) (i : nat) (v : A) : nat -> A :=
@@ -68,17 +83,25 @@ Fixpoint lookup (k : nat) (m : list (nat * nat)) : option nat :=
 Definition remove_key (k : nat) (m : list (nat * nat)) : list (nat * nat) :=
   filter (fun p => negb (Nat.eqb (fst p) k)) m.
 
-Definition init : st :=
+Definition init_b (b : bool) : st :=
   {| cs := fun _ => Idle; reqs := []; chan := fun _ => NoChan; inflight := [];
      gate := fun _ => None; woken := fun _ => false; polled := fun _ => false;
-     ckey := fun _ => None |}.
+     ckey := fun _ => None; bomb := fun _ => false; busy := b |}.
+Definition init : st := init_b true.
 
-(* result codes of a poll: 0 pending, 1 Ok, 2 Err(Service), 3 Err(LeaderCancelled),
-   4 Err(RecvError) (unreachable), 5 panicked, 9 nothing to poll; -1 not a poll.
+(* result codes: 0 pending, 1 Ok, 2 Err(Service), 3 Err(LeaderCancelled), 4 Err(RecvError)
+   (unreachable), 5 panicked (a poll, or call() itself), 9 nothing to poll; -1 no result.
    val: value carried by Ok / Err(Service): the id of the caller whose inner call produced it *)
 Record obs := { r : Z; val : Z }.
 Definition no_obs : obs := {| r := -1; val := -1 |}.
 Definition code (o : outcome) : Z := match o with OOk => 1 | OErr => 2 | OPanic => 5 end.
+
+(* waiters on l whose waker is registered with l's channel (busy = false only) *)
+Definition wake_waiters (s : st) (l : nat) : nat -> bool :=
+  fun j => match cs s j with
+           | Waiting l' => if Nat.eqb l' l && polled s j then true else woken s j
+           | _ => woken s j
+           end.
 
 (* InFlight::complete / InFlight::cancel: remove the entry of key k; the sender found there
    sends (Some o) or is just dropped (None) *)
@@ -87,7 +110,8 @@ Definition close_key (s : st) (k : nat) (msg : option outcome) : st :=
   | Some l =>
     mkSt (cs s) (remove_key k (reqs s))
          (upd (chan s) l (match msg with Some o => Sent o | None => Closed end))
-         (inflight s) (gate s) (woken s) (polled s) (ckey s)
+         (inflight s) (gate s) (if busy s then woken s else wake_waiters s l) (polled s) (ckey s)
+         (bomb s) (busy s)
   | None => s
   end.
 
@@ -97,46 +121,83 @@ Definition call (s : st) (i k : nat) : st :=
     match lookup k (reqs s) with
     | Some l =>
       mkSt (upd (cs s) i (Waiting l)) (reqs s) (chan s) (inflight s) (gate s) (woken s)
-           (polled s) (upd (ckey s) i (Some k))
+           (polled s) (upd (ckey s) i (Some k)) (bomb s) (busy s)
     | None =>
       mkSt (upd (cs s) i (Leading k)) ((k, i) :: reqs s) (upd (chan s) i Open)
            (inflight s ++ [i]) (gate s) (woken s) (polled s) (upd (ckey s) i (Some k))
+           (bomb s) (busy s)
     end
   | _ => s
   end.
 
+(* call() with an inner service whose call() panics when reached.  A waiter never reaches it.
+   A would-be leader: try_join has inserted (k, i); inner.call unwinds; the LeaderRegistration
+   guard runs cancel(k) = the entry of k is removed again, its sender dropped without a message.
+   No inner call was started and no future exists. *)
+Definition call_panic (s : st) (i k : nat) : st * obs :=
+  match cs s i with
+  | Idle =>
+    match lookup k (reqs s) with
+    | Some _ => (call s i k, no_obs)
+    | None =>
+      (mkSt (upd (cs s) i Done) (remove_key k ((k, i) :: reqs s)) (upd (chan s) i Closed)
+            (inflight s) (gate s) (woken s) (polled s) (upd (ckey s) i (Some k)) (bomb s) (busy s),
+       {| r := 5; val := -1 |})
+    end
+  | _ => (s, no_obs)
+  end.
+
 Definition poll (s0 : st) (i : nat) : st * obs :=
   let s := mkSt (cs s0) (reqs s0) (chan s0) (inflight s0) (gate s0) (upd (woken s0) i false)
-                (polled s0) (ckey s0) in
+                (polled s0) (ckey s0) (bomb s0) (busy s0) in
   match cs s i with
   | Leading k =>
     match gate s i with
     | None =>
       (* the inner future registers the waker *)
-      (mkSt (cs s) (reqs s) (chan s) (inflight s) (gate s) (woken s) (upd (polled s) i true) (ckey s),
+      (mkSt (cs s) (reqs s) (chan s) (inflight s) (gate s) (woken s) (upd (polled s) i true) (ckey s)
+            (bomb s) (busy s),
        {| r := 0; val := -1 |})
     | Some OPanic =>
       (* unwinds; the future is dropped with key = Some k *)
       let s1 := close_key s k None in
       (mkSt (upd (cs s1) i Done) (reqs s1) (chan s1) (remove_id i (inflight s1)) (gate s1)
-            (woken s1) (polled s1) (ckey s1),
+            (woken s1) (polled s1) (ckey s1) (bomb s1) (busy s1),
        {| r := 5; val := -1 |})
     | Some o =>
-      let s1 := close_key s k (Some o) in
-      (mkSt (upd (cs s1) i Done) (reqs s1) (chan s1) (remove_id i (inflight s1)) (gate s1)
-            (woken s1) (polled s1) (ckey s1),
-       {| r := code o; val := Z.of_nat i |})
+      if bomb s i then
+        (* the inner future returned; cloning its result panics (key not yet taken):
+           unwinds; the future is dropped with key = Some k *)
+        let s1 := close_key s k None in
+        (mkSt (upd (cs s1) i Done) (reqs s1) (chan s1) (remove_id i (inflight s1)) (gate s1)
+              (woken s1) (polled s1) (ckey s1) (upd (bomb s1) i false) (busy s1),
+         {| r := 5; val := -1 |})
+      else
+        let s1 := close_key s k (Some o) in
+        (mkSt (upd (cs s1) i Done) (reqs s1) (chan s1) (remove_id i (inflight s1)) (gate s1)
+              (woken s1) (polled s1) (ckey s1) (bomb s1) (busy s1),
+         {| r := code o; val := Z.of_nat i |})
     end
   | Waiting l =>
     match chan s l with
     | Sent o =>
-      (mkSt (upd (cs s) i Done) (reqs s) (chan s) (inflight s) (gate s) (woken s) (polled s) (ckey s),
-       {| r := code o; val := Z.of_nat l |})
+      if bomb s l then
+        (* try_recv clones the value in the channel; that Clone panics: this waiter only *)
+        (mkSt (upd (cs s) i Done) (reqs s) (chan s) (inflight s) (gate s) (woken s) (polled s) (ckey s)
+              (upd (bomb s) l false) (busy s),
+         {| r := 5; val := -1 |})
+      else
+        (mkSt (upd (cs s) i Done) (reqs s) (chan s) (inflight s) (gate s) (woken s) (polled s) (ckey s)
+              (bomb s) (busy s),
+         {| r := code o; val := Z.of_nat l |})
     | Closed =>
-      (mkSt (upd (cs s) i Done) (reqs s) (chan s) (inflight s) (gate s) (woken s) (polled s) (ckey s),
+      (mkSt (upd (cs s) i Done) (reqs s) (chan s) (inflight s) (gate s) (woken s) (polled s) (ckey s)
+            (bomb s) (busy s),
        {| r := 3; val := -1 |})
     | Open | NoChan =>
-      (mkSt (cs s) (reqs s) (chan s) (inflight s) (gate s) (upd (woken s) i true) (polled s) (ckey s),
+      (mkSt (cs s) (reqs s) (chan s) (inflight s) (gate s)
+            (if busy s then upd (woken s) i true else woken s) (upd (polled s) i true) (ckey s)
+            (bomb s) (busy s),
        {| r := 0; val := -1 |})
     end
   | Idle | Done | Dropped => (s, {| r := 9; val := -1 |})
@@ -144,14 +205,15 @@ Definition poll (s0 : st) (i : nat) : st * obs :=
 
 Definition drop (s0 : st) (i : nat) : st :=
   let s := mkSt (cs s0) (reqs s0) (chan s0) (inflight s0) (gate s0) (upd (woken s0) i false)
-                (polled s0) (ckey s0) in
+                (polled s0) (ckey s0) (bomb s0) (busy s0) in
   match cs s i with
   | Leading k =>
     let s1 := close_key s k None in
     mkSt (upd (cs s1) i Dropped) (reqs s1) (chan s1) (remove_id i (inflight s1)) (gate s1)
-         (woken s1) (polled s1) (ckey s1)
+         (woken s1) (polled s1) (ckey s1) (bomb s1) (busy s1)
   | Waiting _ =>
     mkSt (upd (cs s) i Dropped) (reqs s) (chan s) (inflight s) (gate s) (woken s) (polled s) (ckey s)
+         (bomb s) (busy s)
   | Idle | Done | Dropped => s
   end.
 
@@ -162,8 +224,12 @@ Definition complete (s : st) (i : nat) (o : outcome) : st :=
     mkSt (cs s) (reqs s) (chan s) (inflight s) (upd (gate s) i (Some o))
          (match cs s i with
           | Leading _ => if polled s i then upd (woken s) i true else woken s
-          | _ => woken s end) (polled s) (ckey s)
+          | _ => woken s end) (polled s) (ckey s) (bomb s) (busy s)
   end.
+
+Definition arm (s : st) (i : nat) : st :=
+  mkSt (cs s) (reqs s) (chan s) (inflight s) (gate s) (woken s) (polled s) (ckey s)
+       (upd (bomb s) i true) (busy s).
 
 Definition step (s : st) (e : ev) : st * obs :=
   match e with
@@ -171,15 +237,22 @@ Definition step (s : st) (e : ev) : st * obs :=
   | Poll i => poll s i
   | Drop i => (drop s i, no_obs)
   | Complete i o => (complete s i o, no_obs)
+  | CallPanic i k => call_panic s i k
+  | Arm i => (arm s i, no_obs)
   end.
 
 Definition step_st (s : st) (e : ev) : st := fst (step s e).
-Definition run (evs : list ev) : st := fold_left step_st evs init.
+Definition run_b (b : bool) (evs : list ev) : st := fold_left step_st evs (init_b b).
+Definition run (evs : list ev) : st := run_b true evs.
 
 (* ---- script interface ----
-   script = [n; (op a b)* ]   callers 0..n-1; events on other callers are skipped
-     op 1 = Poll a, 2 = Drop a, 4 = Complete a b (b: 0 ok 1 err 2 panic), 5 = Call a with key b
-   trace = per event [r; val; wake mask; mask of callers whose inner call is in flight] *)
+   script = [h; (op a b)* ]   callers 0..n-1 with n = h mod 100 (h < 0: none); h / 100 selects how the
+                              driver builds and shares the service value (no effect here);
+                              events on other callers are skipped
+     op 1 = Poll a, 2 = Drop a, 4 = Complete a b (b: 0 ok 1 err 2 panic), 5 = Call a with key b,
+     op 6 = Arm a, 7 = CallPanic a with key b
+   trace = per event [r; val; wake mask; mask of callers whose inner call is in flight;
+                      mask of armed Clone panics] *)
 Definition outcome_of (z : Z) : outcome :=
   if z =? 0 then OOk else if z =? 1 then OErr else OPanic.
 
@@ -190,7 +263,9 @@ Definition ev_of (n : nat) (t : Z * Z * Z) : option ev :=
   if op =? 1 then Some (Poll i) else
   if op =? 2 then Some (Drop i) else
   if op =? 4 then Some (Complete i (outcome_of b)) else
-  if op =? 5 then Some (Call i (Z.to_nat b)) else None.
+  if op =? 5 then Some (Call i (Z.to_nat b)) else
+  if op =? 6 then Some (Arm i) else
+  if op =? 7 then Some (CallPanic i (Z.to_nat b)) else None.
 
 Fixpoint evs_of (n : nat) (l : list (Z * Z * Z)) : list ev :=
   match l with
@@ -201,17 +276,25 @@ Fixpoint evs_of (n : nat) (l : list (Z * Z * Z)) : list ev :=
 Definition wake_mask (s : st) (total : nat) : Z :=
   fold_left (fun acc j => if woken s j then acc + 2 ^ Z.of_nat j else acc) (seq 0 total) 0.
 
+Definition bomb_mask (s : st) (total : nat) : Z :=
+  fold_left (fun acc j => if bomb s j then acc + 2 ^ Z.of_nat j else acc) (seq 0 total) 0.
+
 Definition flight_mask (s : st) : Z :=
   fold_left (fun acc j => acc + 2 ^ Z.of_nat j) (inflight s) 0.
+
+Definition row (total : nat) (s' : st) (o : obs) : list Z :=
+  [r o; val o; wake_mask s' total; flight_mask s'; bomb_mask s' total].
 
 Fixpoint run_evs (total : nat) (s : st) (evs : list ev) : list Z :=
   match evs with
   | [] => []
   | e :: rest =>
-    let '(s', o) := step s e in
-    [r o; val o; wake_mask s' total; flight_mask s'] ++ run_evs total s' rest
+    let p := step s e in
+    row total (fst p) (snd p) ++ run_evs total (fst p) rest
   end.
 
+Definition callers_of (h : Z) : nat := if h <? 0 then 0%nat else Z.to_nat (h mod 100).
+
 Definition run_script (sc : list Z) : list Z :=
-  let n := Z.to_nat (zn sc 0) in
+  let n := callers_of (zn sc 0) in
   run_evs n init (evs_of n (chunk3 (skipn 1 sc))).
